@@ -66,3 +66,10 @@ func (r *Rng) Side() *Rng {
 
 // PickS picks one of the given strings.
 func (r *Rng) PickS(xs ...string) string { return xs[r.Intn(len(xs))] }
+
+// Shuffle permutes n elements through swap (Fisher-Yates).
+func (r *Rng) Shuffle(n int, swap func(i, j int)) {
+	for i := n - 1; i > 0; i-- {
+		swap(i, r.Intn(i+1))
+	}
+}
